@@ -247,22 +247,25 @@ func (ex *Exec) loopEnv(st *State, fr *Frame) *SpecEnv {
 			}
 		}
 	}
-	// a local the baseline knows under a name that is gone (see locals.go)
-	for old, a := range renamedLocals(fr.Fn) {
+	// a local the baseline knows under a name that is gone (see locals.go); of several declarations the one
+	// declared last that has a value wins, as for names that still exist
+	for old, as := range renamedLocals(fr.Fn) {
 		if _, bound := env.vars[old]; bound {
 			continue
 		}
-		if c := fr.Cells[a]; c != nil {
-			if v, ok := st.Locals[c]; ok {
-				env.vars[old] = TV{v, c.Typ}
-			}
-		} else if val, ok := fr.Regs[a]; ok && a.Heap {
-			if p, ok := val.(*PtrV); ok {
-				env.vars[old] = TV{ex.load(st, p), p.Elem}
-				if env.addrs == nil {
-					env.addrs = map[string]*PtrV{}
+		for _, a := range as {
+			if c := fr.Cells[a]; c != nil {
+				if v, ok := st.Locals[c]; ok {
+					env.vars[old] = TV{v, c.Typ}
 				}
-				env.addrs[old] = p
+			} else if val, ok := fr.Regs[a]; ok && a.Heap {
+				if p, ok := val.(*PtrV); ok {
+					env.vars[old] = TV{ex.load(st, p), p.Elem}
+					if env.addrs == nil {
+						env.addrs = map[string]*PtrV{}
+					}
+					env.addrs[old] = p
+				}
 			}
 		}
 	}
